@@ -209,7 +209,7 @@ mod proofs {
     // (Send::init_window_sz) and the RECEIVE window this endpoint advertised (Recv::init_window_sz) — the two
     // values are independent symbolic numbers, so swapping them cannot go unnoticed — and it is reserved(local),
     // waiting for its PUSH_PROMISE, with the next local stream id.
-    // @harness id=streamref_send_push_promise_new_stream props=C02,C03,C04 kind=complete tier=thorough timeout=2400 fn=StreamRef::send_push_promise
+    // @harness id=streamref_send_push_promise_new_stream props=C02,C03,C04 kind=complete tier=attempt timeout=2400 fn=StreamRef::send_push_promise
     #[kani::proof]
     #[kani::unwind(3)]
     #[kani::stub(crate::server::Peer::convert_push_message, stub_convert_push_message)]
